@@ -372,6 +372,7 @@ def evalQuery (ctx : Ctx) (q : Query) : Outcome Reply :=
   | .factorize e => do
     let v ← quantityOrValue ctx e
     -- the model's search is the unmemoised one: exponential in the complexity of the unit
+    if Commands.score v.unit > 128 then .err .generic else    -- "too complex to factorize" (after the fix)
     if Commands.score v.unit > 9 then .unsupported "factorize of a complex unit" else
     pure (.factorize (Commands.factorizeReply ctx.reg.quantities v.unit))
   | .unitsFor e => do
